@@ -263,6 +263,13 @@ Cases32 == Number(
   \cup { Mk32(co, d, 0, [kind |-> "stream", pos |-> k % 3, mask |-> k % 4, sub |-> x], Seed * 1000 + k) :
            co \in Combos32, d \in {0, 1}, x \in {"random", "header-random", "transcript"},
            k \in 1..(IF Tier = "quick" THEN 6 ELSE 40) }
+  \* data phase: a genuine post-handshake message (KeyUpdate with/without update_requested,
+  \* NewSessionTicket; HelloRequest to a TLS 1.1/1.2 client) x transport state at that moment
+  \* (pos: 0 healthy, 1 write side fails, 2 EOF after the message, 3 fully closed) x both directions
+  \cup { Mk32(<<13, 0, k, 0>>, d, 0, [kind |-> "inject", pos |-> p, mask |-> 0, sub |-> m], Seed) :
+           k \in {"E", "R"}, d \in {0, 1}, p \in 0..3, m \in {"keyupdate0", "keyupdate1", "nst"} }
+  \cup { Mk32(co, 1, 0, [kind |-> "inject", pos |-> p, mask |-> 0, sub |-> "hellorequest"], Seed) :
+           co \in {<<12, 49199, "R", 0>>, <<11, 49172, "R", 0>>, <<12, 49195, "P", 0>>}, p \in 0..3 }
   \* a client configured with an external ClientHello that lacks supported_versions (an older
   \* stack's hello), with and without a session cache, against an honest server
   \cup { Mk32(co, 1, 0, [kind |-> "exthello", pos |-> 0, mask |-> 0, sub |-> x], Seed) :
@@ -287,4 +294,25 @@ ASSUME Gen \in {"C27", "C27H"} =>
          /\ ndJsonSerialize("c27h_cases.ndjson", Cases27H)
          /\ PrintT(<<"GENERATED-H", Len(Cases27H),
                      Cardinality({i \in 1..Len(Cases27H) : Cases27H[i].steps[1].skip /\ ~Cases27H[i].steps[2].skip})>>)
+
+-----------------------------------------------------------------------------
+(* C31, automatic rotation: every increasing sequence of 3-4 connection times from a grid that
+   crosses the 24 h rotation period and the 7-day key life (hours), every issuing connection before
+   the last, the ticket presented as issued or forged under an all-zero / all-0xFF / public key;
+   TLS 1.2 and 1.3. *)
+Grid31 == IF Tier = "quick" THEN <<0, 20, 30, 150, 175, 195, 200>> ELSE <<0, 10, 20, 30, 50, 150, 170, 175, 195, 200, 340>>
+TimeSeqs == { <<Grid31[a], Grid31[b], Grid31[c]>> : a, b, c \in 1..Len(Grid31) } \cup
+            { <<Grid31[a], Grid31[b], Grid31[c], Grid31[e]>> : a, b, c, e \in 1..Len(Grid31) }
+Increasing(q) == \A i \in 1..(Len(q) - 1) : q[i] < q[i + 1]
+Cases31A == Number(
+  UNION { { [id |-> 0, vers |-> v, times |-> ts, issue |-> i, forge |-> f,
+             exp |-> [demand |-> SetToSeq(Demand31A([times |-> ts, issue |-> i, forge |-> f])),
+                      keys |-> [k \in 1..Len(AutoKeysAfter(<<>>, ts)) |-> AutoKeysAfter(<<>>, ts)[k].c]]] :
+              i \in 1..(Len(ts) - 1), f \in {"none", "zero", "ff", "public"}, v \in {12, 13} } :
+          ts \in {q \in TimeSeqs : Increasing(q)} } )
+ASSUME Gen \in {"C31", "C31A"} =>
+         /\ ndJsonSerialize("c31a_cases.ndjson", Cases31A)
+         /\ PrintT(<<"GENERATED-A", Len(Cases31A),
+                     Cardinality({i \in 1..Len(Cases31A) : Cases31A[i].exp.demand = <<"resume">>}),
+                     Cardinality({i \in 1..Len(Cases31A) : Cases31A[i].forge # "none"})>>)
 =============================================================================
